@@ -82,38 +82,7 @@ func (l *panicLogger) Log(m gen.MessageLog) {
 	l.e.Probe("panic-recovered-in-node")
 	// the logger runs in the deferred function of the panicking goroutine: its stack still shows
 	// where the panic was raised; keep the repository frames below the panic call
-	where := ""
-	internal := false
-	st := string(debug.Stack())
-	if i := strings.Index(st, "panic("); i >= 0 {
-		k := 0
-		first := true
-		for _, ln := range strings.Split(st[i:], "\n") {
-			ln = strings.TrimSpace(ln)
-			if !strings.HasPrefix(ln, "/") {
-				continue // a function line
-			}
-			repo := strings.HasPrefix(ln, "/repo/") || strings.Contains(ln, "/instr_out/src/")
-			if first && !strings.Contains(ln, "/src/runtime/") {
-				// the first frame outside the Go runtime is the code that panicked: code of the
-				// repository (internal) or a callback of the harness (deliberate)
-				first = false
-				internal = repo
-			}
-			if repo {
-				if j := strings.Index(ln, " +0x"); j > 0 {
-					ln = ln[:j]
-				}
-				if j := strings.Index(ln, "/instr_out/src/"); j >= 0 {
-					ln = ln[j+len("/instr_out/src/"):]
-				}
-				where += " < " + strings.TrimPrefix(ln, "/repo/")
-				if k++; k == 4 {
-					break
-				}
-			}
-		}
-	}
+	where, internal := panicOrigin(string(debug.Stack()))
 	line := fmt.Sprintf("%s: "+m.Format, append([]any{l.node}, m.Args...)...) + " [raised at" + where + "]"
 	l.e.mu.Lock()
 	l.e.panics = append(l.e.panics, line)
@@ -132,6 +101,42 @@ func (l *panicLogger) Log(m gen.MessageLog) {
 	}
 }
 func (l *panicLogger) Terminate() {}
+
+// panicOrigin reads a stack taken in a deferred function of a panicking goroutine: the first frame
+// below the panic call outside the Go runtime is the code that panicked - code of the repository
+// (internal) or of the harness. where lists the first repository frames.
+func panicOrigin(st string) (where string, internal bool) {
+	i := strings.Index(st, "panic(")
+	if i < 0 {
+		return "", false
+	}
+	k := 0
+	first := true
+	for _, ln := range strings.Split(st[i:], "\n") {
+		ln = strings.TrimSpace(ln)
+		if !strings.HasPrefix(ln, "/") {
+			continue // a function line
+		}
+		repo := strings.HasPrefix(ln, "/repo/") || strings.Contains(ln, "/instr_out/src/")
+		if first && !strings.Contains(ln, "/src/runtime/") && !strings.Contains(ln, "/src/sync/") && !strings.Contains(ln, "/src/internal/") {
+			first = false
+			internal = repo
+		}
+		if repo {
+			if j := strings.Index(ln, " +0x"); j > 0 {
+				ln = ln[:j]
+			}
+			if j := strings.Index(ln, "/instr_out/src/"); j >= 0 {
+				ln = ln[j+len("/instr_out/src/"):]
+			}
+			where += " < " + strings.TrimPrefix(ln, "/repo/")
+			if k++; k == 4 {
+				break
+			}
+		}
+	}
+	return where, internal
+}
 
 // Panics returns the panic-level log lines of all simulated nodes of this run.
 func (e *Env) Panics() []string {
